@@ -521,17 +521,17 @@ def gen_cases(rng, tier):
     deep = not quick
     cases = []
     per = 20
-    reps = 8 if quick else 120
+    reps = 8 if quick else 80
     for _ in range(reps):
         for impl in ("old", "new"):
             for intro in ("root", "view", "db", "gff", "db", "root", "gapped"):
                 n = per if intro != "gapped" else per // 2
                 cases.append({"kind": "seq", "impl": impl, "intro": intro, "seed": rng.randrange(2**32), "n": n, "deep": deep})
-    areps = 10 if quick else 150
+    areps = 10 if quick else 100
     for _ in range(areps):
         for intro in ("add", "add", "db", "gff"):
             cases.append({"kind": "aln", "intro": intro, "seed": rng.randrange(2**32), "n": 12, "deep": deep})
-    creps = 4 if quick else 40
+    creps = 4 if quick else 30
     for _ in range(creps):
         for impl in ("old", "new"):
             cases.append({"kind": "coll", "impl": impl, "seed": rng.randrange(2**32), "n": 20})
@@ -742,7 +742,7 @@ def check_seq_features(ctx, obj, parent, view, model, hyps, relwin, ap, got, qki
             res.sig(level, impl, intro, strand, min(len(spans), 3), classes, rev, ap, qkind, ctx.op, "s")
         if g != exp:
             why = explain(hyps, got, relwin, ap)
-            if why is None and impl == "new" and level in ("coll", "collseq") and len(clip(spans, lo, hi)) == 1 and ctx.scn.get("intro") != "members":
+            if why is None and impl == "new" and level in ("coll", "collseq") and len(clip(spans, lo, hi)) == 1 and not (level == "coll" and ctx.scn.get("intro") == "members"):
                 # new-type collection members read their data through the view offset, so the doubled start of a
                 # single-span map shows as wrong residues instead of an exception
                 why = "feature-slice/single-span-start-counted-twice"
@@ -1102,6 +1102,20 @@ def observe_degapped(ctx, obj, P, view, model, hyps):
 # alignment level
 
 
+class _Proxy:
+    """a Ctx whose witness() is redirected (used to file everything under one structural mechanism)"""
+
+    def __init__(self, ctx, witness):
+        self.__dict__["_ctx"] = ctx
+        self.__dict__["witness"] = witness
+
+    def __getattr__(self, k):
+        return getattr(self._ctx, k)
+
+    def __setattr__(self, k, v):
+        setattr(self._ctx, k, v)
+
+
 def aln_step(obj, step):
     op = step[0]
     if op == "slice":
@@ -1141,6 +1155,15 @@ def check_aln_feature(ctx, obj, rows, view, f, cols_all, strand, kind, nt_sig, a
     """slice (as row dict), coordinates and aln[feature] of one alignment-bound feature"""
     res = ctx.res
     lo, hi, rev = view
+    first = next(iter(rows.values()))
+    if kind == "alnfeat" and rev and not first[lo:hi].replace("-", ""):
+        # the alignment reads its own strand from the first row's sequence, which is empty here
+        _w = ctx.witness
+
+        def strand_witness(mech, **detail):
+            _w("C04/alignment-feature-strand-read-from-empty-first-row", original_mechanism=mech, **detail)
+
+        ctx = _Proxy(ctx, strand_witness)
     kept = [c for c in cols_all if lo <= c < hi]
     exp = rows_at(rows, kept, strand == "-")
     det = dict(feature=f.name, kind=kind, view=view, feature_columns=cols_all, strand=strand)
